@@ -15,7 +15,10 @@ the repair 7a7d699), started on an arbitrary list `kinds` of hosted services (an
 supporting retirement or not, reachable or not), after an arbitrary history `ops` of
 commands (`stat/retire/exit/web_*`/unknown), support answers, service-retired
 notifications (known and unknown names, repeated, late), other service commands,
-StopNode completions and request time-outs.  `history kinds ops` is that history preceded
+StopNode completions and request time-outs, under any `mode : StopMode` of the hosting
+application: StopNode completing `later` (op `stopDone`, possibly never) or *inside* the
+StopNode call with success / failure (what `baseapp` does when every module stops
+synchronously).  `history kinds ops` is that history preceded
 by the immediate answers of NodeService-kind services to the start-up probe.
 -/
 namespace Cell2v.Props.C12
@@ -26,16 +29,18 @@ open Cell2v.NodeCtrl
 /-- **state_monotone**: over every service set and every history, the sequence of states
 handed to `UpdateNodeState` — preceded by the initial `working` — is non-decreasing in
 working < retiring < retired < exiting < exited (every earlier entry ≤ every later one). -/
-theorem state_monotone (kinds : List Kind) (ops : List Op) :
-    List.Pairwise (· ≤ ·) (NS.working.rank :: pubRanks (exec true kinds ops).2) := by
-  have := run_pubs_pairwise (start kinds) (history kinds ops)
+theorem state_monotone (kinds : List Kind) (ops : List Op) (mode : StopMode) :
+    List.Pairwise (· ≤ ·) (NS.working.rank :: pubRanks (exec true kinds ops mode).2) := by
+  have := run_pubs_pairwise (start kinds mode) (history kinds ops)
   simpa [exec, start] using this
 
 /-- what is published is the controller's state: a step publishes nothing and keeps
-`state`, or publishes exactly its new `state` (any state, any operation) -/
+`state`, or publishes exactly its new `state`, or — an exit whose StopNode completes inline
+with success — publishes exiting then exited from retired (any state, any operation) -/
 theorem published_is_state (s : St) (o : Op) :
     (pubRanks (step true s o).2 = [] ∧ (step true s o).1.st = s.st) ∨
-    pubRanks (step true s o).2 = [(step true s o).1.st.rank] := step_pubs s o
+    pubRanks (step true s o).2 = [(step true s o).1.st.rank] ∨
+    (pubRanks (step true s o).2 = [4, 5] ∧ (step true s o).1.st = .exited ∧ s.st = .retired) := step_pubs s o
 
 /-! ## retire -/
 
@@ -43,16 +48,16 @@ theorem published_is_state (s : St) (o : Op) :
 node was working or retiring, *every* hosted service had answered the support query with
 "ok" earlier in the history, every hosted service is sent `retire` in that very step, and
 the node publishes and enters `retiring`. -/
-theorem retire_guard (kinds : List Kind) (ops : List Op) (c : Cmd) (hc : c = .retire ∨ c = .webRetire)
-    (hok : Evt.reply .ok ∈ (step true (exec true kinds ops).1 (.cmd c)).2) :
-    ((exec true kinds ops).1.st = .working ∨ (exec true kinds ops).1.st = .retiring) ∧
+theorem retire_guard (kinds : List Kind) (ops : List Op) (mode : StopMode) (c : Cmd) (hc : c = .retire ∨ c = .webRetire)
+    (hok : Evt.reply .ok ∈ (step true (exec true kinds ops mode).1 (.cmd c)).2) :
+    ((exec true kinds ops mode).1.st = .working ∨ (exec true kinds ops mode).1.st = .retiring) ∧
     (∀ i, i < kinds.length → Op.qack i true ∈ history kinds ops) ∧
-    (∀ i, i < kinds.length → Evt.send i .retire ∈ (step true (exec true kinds ops).1 (.cmd c)).2) ∧
-    Evt.pub .retiring ∈ (step true (exec true kinds ops).1 (.cmd c)).2 ∧
-    (step true (exec true kinds ops).1 (.cmd c)).1.st = .retiring := by
-  have inv := RInv.exec kinds ops
-  have hk := exec_kinds true kinds ops
-  generalize (exec true kinds ops).1 = s at *
+    (∀ i, i < kinds.length → Evt.send i .retire ∈ (step true (exec true kinds ops mode).1 (.cmd c)).2) ∧
+    Evt.pub .retiring ∈ (step true (exec true kinds ops mode).1 (.cmd c)).2 ∧
+    (step true (exec true kinds ops mode).1 (.cmd c)).1.st = .retiring := by
+  have inv := RInv.exec kinds ops mode
+  have hk := exec_kinds true kinds ops mode
+  generalize (exec true kinds ops mode).1 = s at *
   have key : ∀ r : St × List Evt, r = retireCmd s → Evt.reply .ok ∈ r.2 →
       (s.st = .working ∨ s.st = .retiring) ∧ (∀ i, i < kinds.length → Op.qack i true ∈ history kinds ops) ∧
       (∀ i, i < kinds.length → Evt.send i .retire ∈ r.2) ∧ Evt.pub .retiring ∈ r.2 ∧ r.1.st = .retiring := by
@@ -82,10 +87,10 @@ theorem retire_guard (kinds : List Kind) (ops : List Op) (c : Cmd) (hc : c = .re
 /-- **retired_iff_all_reported**: a node that hosts at least one service is in state
 retired (or beyond) exactly when every hosted service has reported `retired` — it never
 gets there earlier, and it gets there as soon as the last report arrives. -/
-theorem retired_iff_all_reported (kinds : List Kind) (ops : List Op) (hn : 0 < kinds.length) :
-    3 ≤ (exec true kinds ops).1.st.rank ↔ ∀ i, i < kinds.length → Op.svcRetired i ∈ ops := by
-  have inv := RInv.exec kinds ops
-  have hk := exec_kinds true kinds ops
+theorem retired_iff_all_reported (kinds : List Kind) (ops : List Op) (mode : StopMode) (hn : 0 < kinds.length) :
+    3 ≤ (exec true kinds ops mode).1.st.rank ↔ ∀ i, i < kinds.length → Op.svcRetired i ∈ ops := by
+  have inv := RInv.exec kinds ops mode
+  have hk := exec_kinds true kinds ops mode
   constructor
   · intro h i hi
     have := inv.st_ret h i (by rw [hk]; exact hi)
@@ -100,89 +105,92 @@ theorem retired_iff_all_reported (kinds : List Kind) (ops : List Op) (hn : 0 < k
 service has reported `retired` by then (in the history up to and including that step);
 holds for any number of services, zero included (then it is never published at all,
 see `no_services_never_retires`). -/
-theorem retired_only_after_all_reported (kinds : List Kind) (ops : List Op) (o : Op)
-    (h : Evt.pub .retired ∈ (step true (exec true kinds ops).1 o).2) :
+theorem retired_only_after_all_reported (kinds : List Kind) (ops : List Op) (mode : StopMode) (o : Op)
+    (h : Evt.pub .retired ∈ (step true (exec true kinds ops mode).1 o).2) :
     ∀ i, i < kinds.length → Op.svcRetired i ∈ ops ++ [o] := by
-  have inv := RInv.exec kinds (ops ++ [o])
-  have hk := exec_kinds true kinds (ops ++ [o])
+  have inv := RInv.exec kinds (ops ++ [o]) mode
+  have hk := exec_kinds true kinds (ops ++ [o]) mode
   rw [exec_snoc] at inv hk
   simp only at inv hk
-  have hrank : 3 ≤ (step true (exec true kinds ops).1 o).1.st.rank := by
-    have hmem : NS.retired.rank ∈ pubRanks (step true (exec true kinds ops).1 o).2 := by
+  have hrank : 3 ≤ (step true (exec true kinds ops mode).1 o).1.st.rank := by
+    have hmem : NS.retired.rank ∈ pubRanks (step true (exec true kinds ops mode).1 o).2 := by
       simp only [pubRanks, List.mem_filterMap]
       exact ⟨_, h, rfl⟩
-    rcases step_pubs (exec true kinds ops).1 o with ⟨hp, _⟩ | hp
+    rcases step_pubs (exec true kinds ops mode).1 o with ⟨hp, _⟩ | hp | ⟨_, he, _⟩
     · rw [hp] at hmem; simp at hmem
     · rw [hp] at hmem
       have := List.mem_singleton.mp hmem
       rw [← this]; simp [NS.rank]
+    · rw [he]; simp [NS.rank]
   intro i hi
   have := inv.st_ret hrank i (by rw [hk]; exact hi)
   exact (svcRetired_mem_history kinds (ops ++ [o]) i).mp ((inv.ret_hist i).mp this).2
 
 /-- a node without hosted services never leaves `working` (so it never accepts `retire`:
 `retireSupport` is only ever computed in the answer of a hosted service) -/
-theorem no_services_never_retires (ops : List Op) : (exec true [] ops).1.st = .working := by
-  have inv := RInv.exec [] ops
-  have hk := exec_kinds true [] ops
-  cases h : (exec true [] ops).1.st <;> first | rfl | (have := inv.leave (by simp [h]); simp [hk] at this)
+theorem no_services_never_retires (ops : List Op) (mode : StopMode) : (exec true [] ops mode).1.st = .working := by
+  have inv := RInv.exec [] ops mode
+  have hk := exec_kinds true [] ops mode
+  cases h : (exec true [] ops mode).1.st <;> first | rfl | (have := inv.leave (by simp [h]); simp [hk] at this)
 
 /-! ## exit and StopNode -/
 
 /-- **exit_guard**: if `exit` (or `web_exit`) is accepted after any history, the node was
-retired, every hosted service had reported retired, and the step does exactly this:
-publish `exiting`, call `StopNode` once, answer ok. -/
-theorem exit_guard (kinds : List Kind) (ops : List Op) (c : Cmd) (hc : c = .exit ∨ c = .webExit)
-    (hok : Evt.reply .ok ∈ (step true (exec true kinds ops).1 (.cmd c)).2) :
-    (exec true kinds ops).1.st = .retired ∧
+retired, every hosted service had reported retired, and the step does exactly this, in this
+order: publish `exiting`, call `StopNode` once, (only if the application completes the stop
+inside that call with success: publish `exited`), answer ok. -/
+theorem exit_guard (kinds : List Kind) (ops : List Op) (mode : StopMode) (c : Cmd) (hc : c = .exit ∨ c = .webExit)
+    (hok : Evt.reply .ok ∈ (step true (exec true kinds ops mode).1 (.cmd c)).2) :
+    (exec true kinds ops mode).1.st = .retired ∧
     (∀ i, i < kinds.length → Op.svcRetired i ∈ ops) ∧
-    (step true (exec true kinds ops).1 (.cmd c)).2 = [.pub .exiting, .stopNode, .reply .ok] ∧
-    (step true (exec true kinds ops).1 (.cmd c)).1.st = .exiting := by
-  have inv := RInv.exec kinds ops
-  have hk := exec_kinds true kinds ops
-  have hst : (exec true kinds ops).1.st = .retired := by
+    (step true (exec true kinds ops mode).1 (.cmd c)).2 =
+      [.pub .exiting, .stopNode] ++ (if mode = .inlineOk then [.pub .exited] else []) ++ [.reply .ok] ∧
+    (step true (exec true kinds ops mode).1 (.cmd c)).1.st = (if mode = .inlineOk then .exited else .exiting) := by
+  have inv := RInv.exec kinds ops mode
+  have hk := exec_kinds true kinds ops mode
+  have hm := exec_mode true kinds ops mode
+  have hst : (exec true kinds ops mode).1.st = .retired := by
     rcases hc with rfl | rfl <;> simp only [step, exitCmd, webExitCmd] at hok <;> split at hok <;> simp_all
   refine ⟨hst, fun i hi => ?_, ?_, ?_⟩
   · have := inv.st_ret (by simp [hst, NS.rank]) i (by rw [hk]; exact hi)
     exact (svcRetired_mem_history kinds ops i).mp ((inv.ret_hist i).mp this).2
-  · rcases hc with rfl | rfl <;> simp [step, exitCmd, webExitCmd, hst]
-  · rcases hc with rfl | rfl <;> simp [step, exitCmd, webExitCmd, hst]
+  · rcases hc with rfl | rfl <;> cases mode <;> simp [step, exitCmd, webExitCmd, hst, hm]
+  · rcases hc with rfl | rfl <;> cases mode <;> simp [step, exitCmd, webExitCmd, hst, hm]
 
 /-- **stop_at_most_once**: over every service set and every history `StopNode` is called
 at most once. -/
-theorem stop_at_most_once (kinds : List Kind) (ops : List Op) : stops (exec true kinds ops).2 ≤ 1 := by
-  have h := run_stops (start kinds) (history kinds ops)
-  have h2 : stopBudget (run true (start kinds) (history kinds ops)).1 ≤ 1 := by
+theorem stop_at_most_once (kinds : List Kind) (ops : List Op) (mode : StopMode) : stops (exec true kinds ops mode).2 ≤ 1 := by
+  have h := run_stops (start kinds mode) (history kinds ops)
+  have h2 : stopBudget (run true (start kinds mode) (history kinds ops)).1 ≤ 1 := by
     unfold stopBudget; split <;> omega
   simp only [exec, stops_append, stops_tellAll]
   omega
 
 /-- `StopNode` is never called while the node is not yet exiting: the calls so far are
 exactly "1 if the state is exiting/exited, else 0" -/
-theorem stop_count_is_state (kinds : List Kind) (ops : List Op) :
-    stops (exec true kinds ops).2 ≤ (if 4 ≤ (exec true kinds ops).1.st.rank then 1 else 0) := by
-  have h := run_stops (start kinds) (history kinds ops)
+theorem stop_count_is_state (kinds : List Kind) (ops : List Op) (mode : StopMode) :
+    stops (exec true kinds ops mode).2 ≤ (if 4 ≤ (exec true kinds ops mode).1.st.rank then 1 else 0) := by
+  have h := run_stops (start kinds mode) (history kinds ops)
   simp only [exec, stops_append, stops_tellAll]
-  by_cases hr : 4 ≤ (run true (start kinds) (history kinds ops)).1.st.rank <;>
+  by_cases hr : 4 ≤ (run true (start kinds mode) (history kinds ops)).1.st.rank <;>
     simp [stopBudget, hr] at h ⊢ <;> omega
 
 /-- **stop_exactly_once_after_exit**: once an `exit` has been accepted, whatever happens
 afterwards (late notifications, repeated commands, completions), `StopNode` has been
 called exactly once. -/
-theorem stop_exactly_once_after_exit (kinds : List Kind) (ops1 ops2 : List Op) (c : Cmd)
+theorem stop_exactly_once_after_exit (kinds : List Kind) (ops1 ops2 : List Op) (mode : StopMode) (c : Cmd)
     (hc : c = .exit ∨ c = .webExit)
-    (hok : Evt.reply .ok ∈ (step true (exec true kinds ops1).1 (.cmd c)).2) :
-    stops (exec true kinds (ops1 ++ .cmd c :: ops2)).2 = 1 := by
-  have hle := stop_at_most_once kinds (ops1 ++ .cmd c :: ops2)
-  have hev := (exit_guard kinds ops1 c hc hok).2.2.1
-  have hge : 1 ≤ stops (exec true kinds (ops1 ++ .cmd c :: ops2)).2 := by
+    (hok : Evt.reply .ok ∈ (step true (exec true kinds ops1 mode).1 (.cmd c)).2) :
+    stops (exec true kinds (ops1 ++ .cmd c :: ops2) mode).2 = 1 := by
+  have hle := stop_at_most_once kinds (ops1 ++ .cmd c :: ops2) mode
+  have hev := (exit_guard kinds ops1 mode c hc hok).2.2.1
+  have hge : 1 ≤ stops (exec true kinds (ops1 ++ .cmd c :: ops2) mode).2 := by
     have : history kinds (ops1 ++ .cmd c :: ops2) = history kinds ops1 ++ (.cmd c :: ops2) := by
       simp [history, List.append_assoc]
     simp only [exec, this, run_append, run, stops_append, stops_tellAll]
     simp only [exec] at hev
     rw [hev]
-    simp
-    omega
+    cases mode <;> simp <;> omega
   omega
 
 /-! ## refused commands, unknown names, unknown commands, the web_* duplicates -/
@@ -225,18 +233,19 @@ evaluates on the observations recorded from the Go code, with its seventeen clau
 StopNode at most once and only on exit, exited only after a successful stop, refused
 commands change nothing, …) — never flags the observable trace of the model, for every
 service set and every history. -/
-theorem model_passes_monitor (kinds : List Kind) (ops : List Op) :
-    monitorCase kinds (obsOf (boot true kinds).1 (boot true kinds).2) (traceOf (boot true kinds).1 ops) = none := by
-  obtain ⟨h1, h2⟩ := reset_ok kinds
+theorem model_passes_monitor (kinds : List Kind) (ops : List Op) (mode : StopMode) :
+    monitorCase kinds (inlineOf mode) (obsOf (boot true kinds mode).1 (boot true kinds mode).2)
+      (traceOf (boot true kinds mode).1 ops) = none := by
+  obtain ⟨h1, h2⟩ := reset_ok kinds mode
   simp only [monitorCase, h1]
-  exact runAll_none ops (RInv.exec kinds []) h2
+  exact runAll_none ops (RInv.exec kinds [] mode) h2
 
 open Cell2v.Spec.C12 in
 /-- the monitor is not vacuous: it flags the D3 history on the code before the repair
 (the model `step false`), with the signature recorded in known_findings.json -/
 theorem monitor_flags_d3 :
     let s := (exec false [.raw] [.qack 0 true, .cmd .retire, .svcRetired 0, .cmd .exit]).1
-    let m : Mon := { n := 1, declared := [0], reported := [0], cur := .exiting, stopsTotal := 1, stopOk := false }
+    let m : Mon := { Mon.init 1 [0] with reported := [0], cur := .exiting, stopsTotal := 1 }
     (m.step (.svcRetired 0) (obsOf (step false s (.svcRetired 0)).1 (step false s (.svcRetired 0)).2)).2
       = some "C12/state-regression" := by decide
 
@@ -257,6 +266,12 @@ example : Evt.reply .ok ∉ (step true (exec true [.raw, .nodeNo] [.qack 0 true]
 /-- the full life cycle publishes retiring, retired, exiting, exited and stops once -/
 example : pubRanks (exec true [.raw] [.qack 0 true, .cmd .retire, .svcRetired 0, .cmd .exit, .stopDone true]).2
     = [2, 3, 4, 5] := by decide
+
+/-- StopNode completing inside the call: exiting is published before exited, one step -/
+example : pubRanks (exec true [.raw] [.qack 0 true, .cmd .retire, .svcRetired 0, .cmd .exit] .inlineOk).2
+    = [2, 3, 4, 5] := by decide
+example : (exec true [.raw] [.qack 0 true, .cmd .retire, .svcRetired 0, .cmd .webExit] .inlineFail).1.st
+    = .exiting := by decide
 
 /-! ## defect D3 (before 7a7d699): a late `retired` moved an exiting node back -/
 
